@@ -52,6 +52,44 @@ fn f64_same(a: f64, b: f64) -> bool {
     a.to_bits() == b.to_bits()
 }
 
+/// A simple string / error line cannot carry CR or LF. When the original (first argument) holds some,
+/// the framing still has to survive: what comes back is the original with every CR / LF byte replaced
+/// by another byte that is neither, or with those bytes left out - and holds no CR / LF itself.
+fn line_eq(orig: &[u8], back: &[u8]) -> bool {
+    let dirty = |b: &u8| *b == b'\r' || *b == b'\n';
+    if !orig.iter().any(dirty) {
+        return orig == back;
+    }
+    if back.iter().any(dirty) {
+        return false;
+    }
+    let removed: Vec<u8> = orig.iter().copied().filter(|b| !dirty(b)).collect();
+    if removed == back {
+        return true;
+    }
+    orig.len() == back.len() && orig.iter().zip(back.iter()).all(|(o, b)| dirty(o) || o == b)
+}
+
+/// Round-trip equality: strict, except that line payloads with CR / LF compare by line_eq.
+fn frame_rt_eq(orig: &RespFrame, back: &RespFrame) -> bool {
+    use RespFrame::*;
+    match (orig, back) {
+        (SimpleString(x), SimpleString(y)) => line_eq(x, y),
+        (Error(x), Error(y)) => line_eq(x, y),
+        (Array(Some(x)), Array(Some(y))) => x.len() == y.len() && x.iter().zip(y.iter()).all(|(p, q)| frame_rt_eq(p, q)),
+        _ => {
+            let kids_o = children(orig);
+            if kids_o.is_empty() {
+                frame_eq(orig, back)
+            } else {
+                let kids_b = children(back);
+                variant_idx(orig) == variant_idx(back) && kids_o.len() == kids_b.len()
+                    && kids_o.iter().zip(kids_b.iter()).all(|(p, q)| frame_rt_eq(p, q))
+            }
+        }
+    }
+}
+
 /// Strict structural equality: doubles by bit pattern (NaN == NaN via is_nan),
 /// so that -0.0 and 0.0 are told apart.
 fn frame_eq(a: &RespFrame, b: &RespFrame) -> bool {
@@ -285,6 +323,22 @@ impl<'r> Gen<'r> {
             for b in v.iter_mut() {
                 if *b == b'\r' || *b == b'\n' {
                     *b = b'.';
+                }
+            }
+            // ... but now and then a line that no RESP line can carry: a lone CR, a lone LF, a CRLF
+            // (error texts quote client bytes, scripts return arbitrary status strings). The serialiser
+            // has to keep the framing intact - see line_eq
+            if !v.is_empty() && self.rng.chance(1, 7) {
+                let i = self.rng.usize_below(v.len());
+                match self.rng.below(3) {
+                    0 => v[i] = b'\r',
+                    1 => v[i] = b'\n',
+                    _ => {
+                        v[i] = b'\r';
+                        if i + 1 < v.len() {
+                            v[i + 1] = b'\n';
+                        }
+                    }
                 }
             }
         } else if len > 2 && self.rng.chance(1, 6) {
@@ -889,7 +943,7 @@ fn roundtrip_check(f: &RespFrame) -> Option<(String, String)> {
         Err(e) => return Some(("parse-error".into(), format!("one-shot parse of own serialization failed: {}", e))),
         Ok(None) => return Some(("incomplete".into(), "one-shot parse of own serialization asks for more data".into())),
         Ok(Some((g, n))) => {
-            if !frame_eq(f, &g) {
+            if !frame_rt_eq(f, &g) {
                 return Some(("value-differs".into(), format!("parsed back {}", frame_str(&g))));
             }
             if n != bytes.len() {
@@ -901,7 +955,7 @@ fn roundtrip_check(f: &RespFrame) -> Option<(String, String)> {
     p.feed(&bytes);
     match p.parse() {
         Ok(Some(g)) => {
-            if !frame_eq(f, &g) {
+            if !frame_rt_eq(f, &g) {
                 return Some(("incremental-value-differs".into(), format!("RespParser gave {}", frame_str(&g))));
             }
         }
@@ -1117,7 +1171,7 @@ fn chunking_case(rep: &mut Report, case_seed: u64, miri: bool) {
         let got_frames: Vec<&RespFrame> = reference.obs.iter().filter_map(|o| if let Obs::Frame(f) = o { Some(f) } else { None }).collect();
         for (i, e) in s.expected.iter().enumerate() {
             match got_frames.get(i) {
-                Some(g) if frame_eq(e, g) => {}
+                Some(g) if frame_rt_eq(e, g) => {}
                 other => {
                     local.violation(
                         format!("roundtrip/stream/{}", variant(e)),
